@@ -62,6 +62,12 @@ CHECKS.update({
         "Un-annotated bodies with literal, signed, tuple and conditional returns nested in if/elif/else, try/except/else/finally, for/while/else, with, match and nested defs are evaluated to their return shapes and every literal at every position must be covered by the stub result at that position; annotated functions are judged for result count, order, translated type and names (NumPy names, result_N otherwise) and agreement with the API JSON.",
         "§5 C07",
     ),
+    "C01": (
+        "E1 package engine",
+        "grammar-based fuzzing with Hypothesis: generated 'wild' packages x option combinations against a total-function / clean-rejection predicate, exceptions bucketed by (type, innermost tool frame), collect-then-shrink",
+        "Packages generated from a grammar of declaration forms, statement bodies, expressions, decorators, class-body statements, special forms and well-/malformed docstrings are run through the real entry point under one of the 64 option combinations each; the run must finish with a parseable API file or reject with the documented error exactly when nothing is analysable. Failures are bucketed by root cause and minimised by parallel delta debugging on declaration chunks and lines.",
+        "§5 C01",
+    ),
 })
 
 NOT_YET = "check not built yet in this session (work in progress, see DESIGN.md §9)"
